@@ -12,7 +12,14 @@ _STATE = {}
 def _call(args):
     key, item = args
     fn, state = _STATE[key]
-    return fn(state, item)
+    res = fn(state, item)
+    from . import minieval
+
+    if minieval.COVER is not None:
+        cov = set(minieval.COVER)
+        minieval.COVER.clear()
+        return ("__cover__", res, cov)
+    return res
 
 
 def pmap(fn, state, items, jobs=None):
@@ -27,6 +34,18 @@ def pmap(fn, state, items, jobs=None):
         ctx = multiprocessing.get_context("fork")
         with ProcessPoolExecutor(max_workers=min(jobs, len(items)), mp_context=ctx) as ex:
             chunk = max(1, len(items) // (jobs * 8))
-            return list(ex.map(_call, [(key, it) for it in items], chunksize=chunk))
+            out = list(ex.map(_call, [(key, it) for it in items], chunksize=chunk))
+            from . import minieval
+
+            if minieval.COVER is not None:
+                clean = []
+                for r in out:
+                    if isinstance(r, tuple) and len(r) == 3 and r[0] == "__cover__":
+                        minieval.COVER |= r[2]
+                        clean.append(r[1])
+                    else:
+                        clean.append(r)
+                out = clean
+            return out
     finally:
         _STATE.pop(key, None)
